@@ -49,7 +49,8 @@ def run(ctx):
             txt = pa.vfmt(p.ret)
             m = re.match(r'Some\(from@bb\d+\(tuple\("(:[a-z]+)", (.*)\)\)\)$', txt)
             if m:
-                slot = re.search(r"take@bb\d+\(param_1\.pseudo<Some>\.0\.([a-z_]+)\)<Some>\.0", m.group(2))
+                v_ = re.sub(r"^as_bytes@bb\d+\((.*)\)$", r"\1", m.group(2))
+                slot = re.fullmatch(r"as_str@bb\d+\(take@bb\d+\(param_1\.pseudo<Some>\.0\.([a-z_]+)\)<Some>\.0\)", v_)      # the slot's whole text, nothing derived from it
                 sender.setdefault(m.group(1), set()).add(slot.group(1) if slot else "?")
                 continue
             if p.ret_shape().startswith("Some("):
